@@ -87,6 +87,10 @@ def run(rep, tier, rng, replay=None):
                 hist = [rng.choice(f["ops"]) for _ in range(rng.range(1, 6))]
                 final = rng.choice(f["ops"])
                 sessions.append((name, hist, final, vname))
+    if replay and replay.get("kind") == "session2":
+        from props import c17s
+        c17s.replay_session(rep, replay)
+        return
     if replay:
         prelude = ["BASE r " + replay["file"]]
         sessions = [("r", replay["history"], replay["final"], "replay")]
@@ -120,6 +124,10 @@ def run(rep, tier, rng, replay=None):
     rep.cov.update(sessions=len(sessions), file_variants=kinds, direct_failures=n_dir, correspondence_failures=n_corr,
                    traces_validated_against_impl=len(cases))
     rep.sample(dict(kind="session", case=cases[0][:40] + " ... " + " ".join(cases[0].split()[3:])[:300], impl=a[0][:300]))
+    # sessions that include the simple iterator (slice "simple": SESS2 case kind, model of PointCloudReaderSimple)
+    if not replay:
+        from props import c17s
+        c17s.simple_sessions(rep, core.Rng(rng.next()), tier)
     rep.cov["rule"] = ("files with several point clouds and blobs, intact / one page with a broken checksum / a damaged section on resealed pages; random histories of 1-5 read "
                        "operations (XML, raw iteration complete or stopped after 0/1/3 points, descriptors that lie about the record count or point into a section, blobs, "
                        "blobs longer than stored) followed by a final operation; the final operation is also run on a freshly opened reader and must return the same; "
